@@ -88,6 +88,9 @@ func (p Params) Validate() error {
 	if err := validateUint64("oracle reward percentage", false)(p.OracleRewardPercentage); err != nil {
 		return err
 	}
+	if p.OracleRewardPercentage > 100 {
+		return fmt.Errorf("oracle reward percentage must not exceed 100: %d", p.OracleRewardPercentage)
+	}
 	if err := validateUint64("inactive penalty duration", false)(p.InactivePenaltyDuration); err != nil {
 		return err
 	}
